@@ -689,7 +689,8 @@ func c14ConcChild(c string, race bool) (res string, fails []Fail, stderr string,
 			}
 		}
 	}
-	if werr != nil || res == "" {
+	_ = werr // a -race build exits with 66 after reporting races: the C line says whether the case was run to its end
+	if res == "" {
 		// the Go runtime ended the process: unrecoverable `fatal error:` (concurrent map read / write, …) or an unrecovered panic
 		what, where := "", ""
 		for _, l := range strings.Split(stderr, "\n") {
